@@ -116,6 +116,19 @@ class Opaque:
     __hash__ = None
 
 
+def _is_generator(d):
+    """does the function definition itself (not a nested definition) contain a yield"""
+    stack = list(d.body)
+    while stack:
+        n = stack.pop()
+        if isinstance(n, (ast.Yield, ast.YieldFrom)):
+            return True
+        if isinstance(n, (ast.FunctionDef, ast.AsyncFunctionDef, ast.Lambda, ast.ClassDef)):
+            continue
+        stack.extend(ast.iter_child_nodes(n))
+    return False
+
+
 class _Chain(dict):
     """read-only view: first mapping, then second"""
 
@@ -158,20 +171,37 @@ class Folder:
         for p_, a in zip(params, args):
             env[p_] = a
         if len(args) > len(params):
-            raise Unknown("too many arguments")
+            if d.args.vararg is None:
+                raise Raised("TypeError")
+            env[d.args.vararg.arg] = tuple(args[len(params):])
+        elif d.args.vararg is not None:
+            env[d.args.vararg.arg] = ()
+        kwonly = [a.arg for a in d.args.kwonlyargs]
+        for a_, dflt in zip(d.args.kwonlyargs, d.args.kw_defaults):
+            if dflt is not None:
+                defaults[a_.arg] = dflt
+        extra = {}
         for k, v in kw.items():
-            if k not in params:
-                raise Unknown("keyword %s" % k)
+            if k not in params and k not in kwonly:
+                if d.args.kwarg is None:
+                    raise Raised("TypeError")
+                extra[k] = v
+                continue
+            if k in env:
+                raise Raised("TypeError")
             env[k] = v
+        if d.args.kwarg is not None:
+            env[d.args.kwarg.arg] = extra
+        params = params + kwonly
         for p_ in params:
             if p_ not in env:
                 if p_ in defaults:
                     self.env = env
                     env[p_] = self.ev(defaults[p_])
                 else:
-                    raise Unknown("missing argument %s" % p_)
+                    raise Raised("TypeError")
         self.env = env
-        is_gen = any(isinstance(x, (ast.Yield, ast.YieldFrom)) for x in ast.walk(d))
+        is_gen = _is_generator(d)
         saved_y = self.yields
         if is_gen:
             self.yields = []
@@ -395,7 +425,7 @@ class Folder:
         if isinstance(c.func, ast.Name) and c.func.id in self.module_functions and c.func.id not in self.env:
             return self.call_function(self.module_functions[c.func.id], args, kw)
         if isinstance(c.func, ast.Name) and c.func.id in self.helpers and \
-                any(isinstance(x, (ast.Yield, ast.YieldFrom)) for x in ast.walk(self.helpers[c.func.id])):
+                _is_generator(self.helpers[c.func.id]):
             d = self.helpers[c.func.id]
             outer = dict(self.env)
             saved_g = self.globals
@@ -437,8 +467,20 @@ class Folder:
             except TypeError as x:
                 raise Unknown(str(x))
         if fn in FUNCS:
-            if fn == "isinstance" and len(args) == 2 and not isinstance(args[1], (type, tuple)):
-                raise Unknown("isinstance against a repository class")
+            if fn == "isinstance" and len(args) == 2:
+                cands = args[1] if isinstance(args[1], tuple) else (args[1],)
+                if any(hasattr(c_, "_isinstance") for c_ in cands):
+                    return any((c_._isinstance(args[0]) if hasattr(c_, "_isinstance") else isinstance(args[0], c_)) for c_ in cands)
+                if not all(isinstance(c_, type) for c_ in cands):
+                    raise Unknown("isinstance against a repository class")
+            if fn == "next" and args and isinstance(args[0], (list, tuple)):
+                if args[0]:
+                    return args[0][0]               # (generators are folded into lists: the first element)
+                if len(args) > 1:
+                    return args[1]
+                raise Raised("StopIteration")
+            if fn == "iter" and len(args) == 1 and isinstance(args[0], (list, tuple, range)):
+                return list(args[0])
             try:
                 v = FUNCS[fn](*args, **kw)
             except PYEXC as x:
@@ -455,12 +497,18 @@ class Folder:
             m = c.func.attr
             if isinstance(recv, Opaque):
                 return Opaque("%s.%s()" % (recv._what, m))
-            if (isinstance(recv, types.SimpleNamespace) or type(recv).__module__ != "builtins") and callable(getattr(recv, m, None)):
+            if hasattr(type(recv), "_unbound"):
+                fnc = recv._unbound(m)                          # Class.method(obj, ..) on a folded class
+                if fnc is None:
+                    raise Raised("AttributeError")
+                return fnc(*args, **kw)
+            if (isinstance(recv, types.SimpleNamespace) or type(recv).__module__ != "builtins" or
+                    (isinstance(recv, type) and recv.__module__ != "builtins")) and callable(getattr(recv, m, None)):
                 try:
                     return getattr(recv, m)(*args, **kw)          # an object supplied by the rule itself (a stand-in for a parser, a graph ..)
                 except PYEXC as x:
                     raise Raised(type(x).__name__)
-            if m in METHODS and isinstance(recv, (list, tuple, int, str, dict, bytes)) and hasattr(recv, m):
+            if m in METHODS and isinstance(recv, (list, tuple, int, str, dict, bytes, range)) and hasattr(recv, m):
                 try:
                     v = getattr(recv, m)(*args, **kw)
                 except PYEXC as x:
